@@ -312,13 +312,27 @@ def listing_paths(root):
             yield "R/" + os.path.relpath(os.path.join(dp, fn), root).replace(os.sep, "/")
 
 
+def obj_state(fs):
+    """the default dictionaries a FileSet object carries (JSON-able copy)"""
+    def plain(d):
+        return {str(k): (v if isinstance(v, (int, str, bool, type(None))) else repr(v)) for k, v in dict(d).items()}
+    return {"read_args": plain(fs.read_args), "write_args": plain(fs.write_args)}
+
+
+def call_offset(op, kind):
+    """the keyword arguments of THIS call (only the toy handlers take one: offset)"""
+    k = op.get("call_args")
+    return int(k) if (k is not None and kind in ("pkl", "json")) else None
+
+
 def run_case(case):
     root = tempfile.mkdtemp(prefix="verif_c11_")
     records = []
     try:
         pool = [(build_fileset(root, cfg), dict(cfg)) for cfg in case["filesets"]]
+        pool = [(fs_, cfg_, obj_state(fs_)) for fs_, cfg_ in pool]
         for op in case["ops"]:
-            fs, cfg = pool[op["fs"] % len(pool)]
+            fs, cfg, fs_init = pool[op["fs"] % len(pool)]
             r = dict(op)
             r["cfg"] = dict(cfg)
             kind = cfg["hkind"]
@@ -340,10 +354,28 @@ def run_case(case):
                     s, e = from_us(op["s"]), from_us(op["e"])
                     data = mk(kind, op["v"])
                     key = slice(s, e) if op["slice"] else s
-                    if op.get("fill") is not None:
+                    k = call_offset(op, kind)
+                    if k is not None:
+                        # write(data, file, **write_args): arguments of this call only
+                        fn = fs.get_filename((s, e) if op["slice"] else (s, s),
+                                             fill=dict(op["fill"]) if op.get("fill") is not None else None)
+                        r["path"], r["call"] = rel(root, fn), k
+                        fs.write(data, fn, offset=k)
+                    elif op.get("fill") is not None:
                         fs[key, dict(op["fill"])] = data
                     else:
                         fs[key] = data
+                    # written_is_found: the file must be found again, under the period the property prescribes
+                    try:
+                        fn = fs.get_filename((s, e) if op["slice"] else (s, s),
+                                             fill=dict(op["fill"]) if op.get("fill") is not None else None)
+                        out["written"] = rel(root, fn)
+                        hits = list(fs.find(s, s + US, no_files_error=False))
+                        out["found"] = [[rel(root, f.path), to_us(f.times[0]), to_us(f.times[1]),
+                                         sorted([k_, str(v_)] for k_, v_ in f.attr.items())]
+                                        for f in hits if rel(root, f.path) == out["written"]]
+                    except Exception as ex:  # noqa
+                        out["found_error"] = f"{type(ex).__name__}: {str(ex)[:200]}"
                 elif name in ("read", "get"):
                     ex = existing(root, fs, cfg)
                     if not ex:
@@ -361,7 +393,12 @@ def run_case(case):
                             pass
                     if name == "read":
                         r["path"] = rel(root, f.path)
-                        data = fs.read(f.path) if op["pick"] % 2 else fs.read(f)
+                        k = call_offset(op, kind)
+                        if k is not None:
+                            r["call"] = k       # read(file, **read_args): arguments of this call only
+                            data = fs.read(f.path, offset=k) if op["pick"] % 2 else fs.read(f, offset=k)
+                        else:
+                            data = fs.read(f.path) if op["pick"] % 2 else fs.read(f)
                     else:
                         r["t"] = to_us(f.times[0])
                         data = fs[f.times[0]]
@@ -369,13 +406,18 @@ def run_case(case):
                     out["value"], out["faithful"] = v, faithful
                 elif name == "collect":
                     kw = sel_kwargs(op)
+                    k = call_offset(op, kind)
+                    ckw = {}
+                    if k is not None:
+                        r["call"] = k           # collect(..., read_args={...}): arguments of this call only
+                        ckw["read_args"] = {"offset": k}
                     if op.get("use_files"):
-                        infos, datas = fs.collect(files=chosen, return_info=True)
-                    elif op.get("slice") and "filters" not in kw:
+                        infos, datas = fs.collect(files=chosen, return_info=True, **ckw)
+                    elif op.get("slice") and "filters" not in kw and k is None:
                         datas = fs[kw.get("start"):kw.get("end")]
                         infos = None
                     else:
-                        infos, datas = fs.collect(return_info=True, **kw)
+                        infos, datas = fs.collect(return_info=True, **kw, **ckw)
                     vals = [val(kind, d) for d in datas]
                     out["faithful"] = next((f for _, f in vals if f is not True), True)
                     if infos is None:
@@ -393,7 +435,7 @@ def run_case(case):
                         kw = {"files": chosen}
                     tg = op["target"]
                     if tg["kind"] == "fs":
-                        dest, dcfg = pool[tg["fs"] % len(pool)]
+                        dest, dcfg = pool[tg["fs"] % len(pool)][:2]
                         r["target_cfg"] = dict(dcfg)
                     else:
                         dest = os.path.join(root, tg["path"])
@@ -411,7 +453,7 @@ def run_case(case):
                         cv = Convert(kind, dcfg["hkind"], int(conv))
                     ret = fs.move(dest, convert=cv, copy=op["copy"], **kw)
                     if tg["kind"] == "path":
-                        new_member = (ret, dcfg)
+                        new_member = (ret, dcfg, dict(fs_init))
                 elif name == "delete":
                     kw = sel_kwargs(op)
                     if op.get("use_files"):
@@ -429,6 +471,11 @@ def run_case(case):
                        "tb": traceback.format_exc()[-600:]}
             if new_member is not None:
                 pool.append(new_member)
+            # the state of the object after the call: its default dictionaries must be what they were
+            try:
+                out["obj"], out["obj_init"] = obj_state(fs), fs_init
+            except Exception as ex:  # noqa
+                out["obj"], out["obj_init"] = f"{type(ex).__name__}: {ex}", fs_init
             records.append({"op": r, "out": out, "after": listing(root)})
         return {"id": case["id"], "records": records}
     finally:
